@@ -30,7 +30,15 @@ structure UKey where
   seq : Nat
   deriving DecidableEq, Repr
 
-def natBytes (n : Nat) : Bytes := Bytes.ofString (Nat.repr n)
+/-- decimal digits of `n` in front of `acc` (fuel `> n` suffices) -/
+def digitsAux : Nat → Nat → Bytes → Bytes
+  | 0, _, acc => acc
+  | fuel + 1, n, acc =>
+    if n < 10 then UInt8.ofNat (48 + n) :: acc
+    else digitsAux fuel (n / 10) (UInt8.ofNat (48 + n % 10) :: acc)
+
+/-- `%d` -/
+def natBytes (n : Nat) : Bytes := digitsAux (n + 1) n []
 
 /-- `fmt.Sprintf("%s.%d", day, num)` -/
 def renderId (k : UKey) : Bytes := natBytes k.day ++ [46] ++ natBytes k.seq
